@@ -229,6 +229,135 @@ CLAIMS["C10"] = (
     BOUNDED_TECH + " against a reference editor",
 )
 
+# ------------------------------------------------------------------------------------------------------------
+# Claims as of the end of session 3 (these override the earlier entries above).
+TIERNOTE = " Functions marked * in DESIGN.md §9 take minutes and are verified by the thorough tier only (evidence key verified_in_thorough_tier_only)."
+
+CLAIMS["C01"] = (
+    "other",
+    "Proved (children abstract, i.e. for every child honouring the widget protocol): the rendered size of Padding, Filler, Pile, Columns*, Frame, Overlay, BoxAdapter, AttrMap and GraphVScale is the size asked for "
+    "(flow: the rows their own rows() reports -- Pile.rows, Columns.rows, Padding.rows, BoxAdapter.rows proved equal to the rendered rows through one shared geometry: Pile.get_item_rows / get_rows_sizes exact fill, own rows for given and packed children); "
+    "CompositeCanvas.trim / trim_end over the real fields, the four cview_trim_* functions. The statement itself (every bundled widget, every valid size and focus flag: render succeeds, rectangular, sized per mode, cursor inside) is decided by the bounded "
+    "stand-in: all widget trees of depth <= 2 (sampled depth 3) over every bundled leaf, decoration and container class with the option combinations of the quantifier (incl. zero weights, multi-row labels), texts incl. wide / zero-width / DEC characters, three encodings, sizes 1..6 x 1..4.",
+    "Bounded for the statement as a whole; the proved part covers the container classes named, under the canvas protocol (assumed contracts CanvasCombine / CanvasJoin / CanvasOverlay / pad_trim_*, checked by C02's bounded canvas-protocol check). Eight known findings." + TIERNOTE,
+    "§6 C01, §9",
+    TECH + " for the container size lemmas; " + BOUNDED_TECH,
+)
+CLAIMS["C02"] = (
+    "other",
+    "Proved: the complete run-length kernel against the expansion view (rle_len, rle_get_at, rle_append_modify, rle_prepend_modify, rle_join_modify, rle_subseg, rle_factor, rle_product*: lengths, position-wise content, no zero-length run, operands unchanged), "
+    "calc_trim_text (slice width + pads == requested range; pads iff a wide character straddles that edge), cview_trim_rows/top/left/cols (the viewed rectangle is the intended sub-rectangle), CompositeCanvas.trim / trim_end over the real fields "
+    "(rows, cursor moves with its cell or goes with it, pop-up, finalized canvas refuses) under an abstraction of the shard list. The cell-for-cell statement is decided by the bounded stand-in: an independent grid model (spec/grid.py); all expression trees of depth <= 2 "
+    "(sampled deeper) over leaf canvases <= 4x3 with wide and zero-width characters, 2-run attribute lists, cursors and pop-ups, all defined offsets: content, size, coordinates, operands unchanged, content_delta reproduces the new rows; plus the canvas protocol every container proof assumes.",
+    "The shard algebra (shard_body / shard_body_tail: iterator-driven generators over nested heterogeneous tuples) is outside the deductive subset: shards_trim_* are assumed contracts, pad_trim_left_right / pad_trim_top_bottom / fill_attr_apply remain assumed (bounded only). One known finding." + TIERNOTE,
+    "§6 C02, §9",
+    TECH + " for the run-length kernel, cview arithmetic and trim; " + BOUNDED_TECH + " against a grid model",
+)
+CLAIMS["C05"] = (
+    "other",
+    "Proved on the real decoder functions (key codes = lists of ints 0..255): read_mouse_info, read_sgrmouse_info, read_cursor_position, KeyqueueTrie.get / get_recurse, process_keyqueue, Screen.parse_input, get_available_raw_input: no exception other than "
+    "MoreInputRequired and that only when more input can come; the remainder is a proper suffix of the input (left to right, terminates: decreases obligations); X10 / SGR mouse reports and cursor-position reports decode to exactly the documented button / modifiers / "
+    "coordinates, malformed reports give None; parse_input: raw codes ++ pending codes == input (nothing lost or duplicated), pending input arms the completion alarm, a flush leaves nothing pending. The fragmentation-independence statement itself (two-run, "
+    "relational) is decided by the bounded stand-in: every table sequence, mouse and cursor reports, UTF-8 / double-byte characters, garbage <= 3 bytes, every 1- and 2-cut split with the timeout fired or not, three encodings, through a real Screen on a pipe, against an independent reference decoder.",
+    "The trie is an opaque dictionary protocol (which sequences it holds: bounded check); event-name strings beyond the three readers are opaque; Screen._get_input_codes assumed (OS I/O).",
+    "§6 C05, §9",
+    TECH + " for the decoder functions; " + BOUNDED_TECH + " against an independent reference decoder",
+)
+CLAIMS["C06"] = (
+    "other",
+    "Proved: (i) CanvasCache.store / fetch / invalidate / cleanup / clear on the abstract view (fetch returns only what store put; invalidate removes the widget and the transitive closure of its dependants -- recursion with a decreases measure, closure lemma; "
+    "store registers the widget under every dependency or does not store at all), cached_render / finalize_render / cached_rows (a finalized canvas that passed validate_size; a hit returns the stored canvas; render only on a miss); (ii) static path-sensitive obligations from the real ASTs: "
+    "every public mutator of 31 widget classes that writes render state invalidates; every render of 22 container / decoration classes returns a canvas that depends on every child it consulted; every canvas mutator refuses a finalized canvas. "
+    "The two-run statement (cached rendering == fresh rendering after any history) is decided by the bounded stand-in: trees of depth <= 3, histories of <= 4 steps of renders, mutators, contents edits, focus changes, walker edits, scroll positions, gc.",
+    "Weak references modelled as always-live plain references (GC lifetime exercised, not proved); walk_depends assumed; the static obligations are AST analyses (backend 'ast-paths'), not SMT proofs.",
+    "§6 C06, §9",
+    TECH + " (cache operations) + path-sensitive static effect obligations; " + BOUNDED_TECH,
+)
+CLAIMS["C08"] = (
+    "proof",
+    "Proved per operation (children abstract), hence by induction after any history: Pile, Columns: focus_position is a valid index or IndexError with nothing written; focus is that child; _contents_modified recomputes selectability and invalidates; keypress offers the key "
+    "to the focus child only, with the size render uses, returns an unconsumed non-navigation key unchanged, and moves the focus to the nearest selectable child in the arrow's direction or nowhere; mouse_event delivers to the one child drawn at the cell and a button-1 press on a "
+    "selectable child focuses it; move_cursor_to_coords moves the focus only on success. Frame: focus_position is a part that exists (IndexError otherwise), keypress / mouse routing, render hands focus only to the focus part at every size (trimmed header / footer included). "
+    "Overlay: focus_position is 1. Filler / Padding / BoxAdapter delegation. ListBox.set_focus / change_focus / _set_focus_complete / shift_focus: an assigned position stays the walker's focus. SimpleListWalker.set_focus accepts exactly the valid positions.",
+    "GridFlow focus, ListBox.keypress / render and get/set_focus_path round trips on real nestings: bounded stand-in (all container classes, depth <= 3, key / click / assignment / contents-edit sequences). Assumed: ListBox.calculate_visible, ListWalker protocol, Columns.get_column_sizes. Three known findings." + TIERNOTE,
+    "§6 C08, §9",
+    TECH + " (per-operation invariants); " + BOUNDED_TECH,
+)
+CLAIMS["C09"] = (
+    "proof",
+    "For Filler, Padding, Pile, Columns, Frame, Overlay (box sizes), BoxAdapter and AttrMap -- children abstract, i.e. for every child honouring the widget protocol -- render, get_cursor_coords, mouse_event, move_cursor_to_coords and the size used by keypress are each proved against ONE "
+    "shared geometry per class (the container's own padding / filler / rows / column / frame values as a deterministic function, itself under contract where listed): reported cursor = child's cursor shifted by the child's offset = cursor of the focused rendering; a mouse event on a child cell reaches exactly that child "
+    "with child-relative coordinates, a padding / divider cell reaches nobody; move_cursor_to_coords succeeds iff the child drawn at that cell accepts the translated cell (a row outside it is refused), and the focus follows.",
+    "Assumes: widget protocol (incl. child's render cursor == its get_cursor_coords), canvas protocol (CanvasCombine / CanvasJoin / CanvasOverlay / pad_trim_*: assumed contracts checked by C02's bounded part), the fit precondition stated per function, Columns.get_column_sizes (strengthened assumed contract). "
+    "Pile.render's cursor clause, GridFlow, ListBox, LineBox assembly: bounded stand-in on real widget trees (every cell of trees of depth <= 3 incl. uneven columns under decorations)." + TIERNOTE,
+    "§6 C09, §9",
+    TECH + "; bounded stand-in on real widget trees",
+)
+CLAIMS["C10"] = (
+    "other",
+    "Proved on the real Edit / IntEdit / NumEdit code over an abstract text (str and UTF-8 bytes): representation invariant 0 <= cursor <= len; set_edit_pos clamps; insert_text_result / insert_text put the text at the cursor and the cursor after it; set_edit_text emits 'change'(new) before and "
+    "'postchange'(old) after the write; keypress for printable characters, tab, enter, left, right, backspace, delete equals the reference editor step (exactly one character, cursor on a character boundary), unused keys and left-at-start / right-at-end come back unhandled; "
+    "IntEdit / NumEdit: valid_char is exactly the alphabet (one leading minus, nothing in front of it), leading-zero loops terminate and keep the alphabet. Layout-dependent behaviour (up / down / home / end, clicks, cursor cell, clip-mode view shift, preferred column) is decided by the bounded stand-in: "
+    "texts <= 6 characters incl. wide / zero-width characters x widths x wrap x align x key histories incl. keys outside every numeric alphabet, against an independent reference editor.",
+    "Assumed: Widget._emit handlers do not modify the widget; str.upper / str.encode models (cross-checked on samples). Two known findings.",
+    "§6 C10, §9",
+    TECH + " for the layout-independent editor steps; " + BOUNDED_TECH + " against a reference editor",
+)
+CLAIMS["C13"] = (
+    "proof",
+    "SelectEventLoop, on the real code with heapq / time / selectors / itertools.count modelled: alarm() adds exactly one handle with a fresh tie-break; remove_alarm() removes exactly that handle and reports True iff it was pending (second removal False: lemma); watch / idle maps change only at the given key; "
+    "one iteration of _loop waits at most once, never blocks while an idle pass is owed, runs an alarm only when nothing was ready and only the heap minimum after waiting until it was due, and EVERY callback it invokes is registered at the moment of the call (under the rely that callbacks re-enter all six operations); "
+    "run() returns only after ExitMainLoop and lets any other exception out unchanged -- except InterruptedError (known finding C13-KF1, stated as a clause). Twisted, asyncio and tornado adapters (their own Python, scheduler opaque): the idle-emulation invariant 'an idle pass is pending iff the flag / handle is set' "
+    "is established by __init__ and preserved by every operation and wrapper, so idle callbacks registered at any time are run after the next alarm / watch callback.",
+    "Assumes: heapq model, select() returns an arbitrary set of registered descriptors, monotone time, reactor / asyncio loop opaque. Ordering and timing inside asyncio, tornado, twisted, trio, zmq: decided only by the bounded stand-in on virtual-time boards (real loops, counter clocks); glib not installed. Seven known findings (trio, tornado, zmq, select EINTR guard).",
+    "§6 C13, §9",
+    TECH + " over abstract-data-type models of heap / map / selector / reactor; rely-guarantee for re-entrant callbacks; bounded virtual-time stand-in",
+)
+CLAIMS["C15"] = (
+    "other",
+    "Proved on the real TermCanvas code (grid = list of rows of opaque cells) under the class invariant GI (height rows of width cells, scrolling region inside the screen, cursor inside, 0 <= scrolling_up <= len(scrollback)), with no IndexError escaping: every grid and cursor operation equals a reference VT100 state transformer "
+    "(blank_line, scroll, set_char, decaln, clear, carriage_return, linefeed, newline, insert/remove chars and lines, erase, push_char, push_cursor incl. pending wrap, csi_set_scroll, reset_scroll, save/restore cursor, scroll_buffer, tab, init_tabstops, resize* incl. the scroll-back exchange, csi_status_report replies) -- "
+    "GI is preserved and each modified field is the model value. The statement over arbitrary byte streams is decided by the bounded stand-in: addstr on all byte strings <= 3 over 24 representative bytes at three sizes with resizes and chunking, CSI parameters from {missing, 0, 1, size, size+1, 10^9}, faithfulness against an independent VT100 reference interpreter.",
+    "The byte parser (parse_csi / dispatch through a dict of lambdas) and content() are outside the deductive subset: bounded only. TermCharset.apply_mapping assumed; deque model cross-checked." + TIERNOTE,
+    "§6 C15, §9",
+    TECH + " for the grid operations; " + BOUNDED_TECH + " against a reference VT100 interpreter",
+)
+CLAIMS["C17"] = (
+    "other",
+    "Proved: the complete run-length kernel the attribute lists live in (rle_* against the expansion view: lengths, position-wise attributes, no zero-length run) and AttrMap.render (focus_map used iff focus and a focus map is set; the child is rendered once at the same size / focus; the map is applied to its canvas). "
+    "Bounded stand-in: markup nestings of depth <= 3 over texts with multi-byte characters x widths x wrap x align: every cell carries the innermost enclosing tag, padding cells none; AttrMap / AttrWrap chains incl. maps to falsy attributes; palettes with alias / mono / high entries at five depths in every registration order: "
+    "the SGR bytes written decode (independent SGR decoder) to the palette entry's colours and styles.",
+    "decompose_tagmarkup, apply_text_layout attribute ranges, fill_attr_apply, _attrspec_to_escape: bounded only." + TIERNOTE,
+    "§6 C17, §9",
+    TECH + " for the run-length kernel and AttrMap; " + BOUNDED_TECH,
+)
+CLAIMS["C18"] = (
+    "proof",
+    "Proved on the real functions (modelled str over digit symbols, 62-bit AttrSpec word as a structure of bit fields, both cross-checked against CPython every run): _parse_color_256 / 88 / true map every description to the documented palette number -- cube colours to 16+36R+6G+B with each step the nearest table value "
+    "(ties up), grays to the nearest gray, #rrggbb at 88 colours through the three high digits -- or None, never another exception; _color_desc_256 / 88 / true are inverse to them (the description parses back to the number, for every describable number); _true_to_256; AttrSpec.__init__ and the foreground* / background setters "
+    "raise only AttrSpecError, touch only their own bit fields, store what the parsers say, reject a second colour (incl. colour number 0) and repeated settings; colors is the least depth the stored colours need (88-colour mode as declared); foreground* / background describe the stored numbers so that they parse back; get_rgb_values reads the xterm tables; __eq__ implies equal __hash__ (lemma); "
+    "_value_lookup_table maps every value to a nearest entry. The composed round trip AttrSpec(s.foreground, s.background, depth) == s over the statement's own finite domain is enumerated exhaustively by the bounded check.",
+    "Assumes the str / bit-field models (cstr-models-agree-with-cpython, bitword-operations-agree-with-cpython static checks); str.split / strip in the foreground setter abstract. True-colour space sampled (exhaustive in thorough)." + TIERNOTE,
+    "§6 C18, §9",
+    TECH + "; exhaustive enumeration of the finite colour domain as bounded stand-in",
+)
+CLAIMS["C19"] = (
+    "proof",
+    "Postconditions taken from the statement are proved for all integer inputs on the real bodies, function by function against callee contracts: int_scale; calculate_left_right_padding / calculate_top_bottom_filler (non-negative parts, exact fill, requested size when it fits, margins, alignment split to within rounding, clip mode); "
+    "Padding.padding_values, Filler.filler_values, Frame.frame_top_bottom, Overlay.calculate_padding_filler / top_w_size (no negative dimension handed to the top widget); Pile.get_item_rows / get_rows_sizes (own rows for given / packed children, weighted children fill the rest exactly, each share proportional to within rounding of what was left); "
+    "Columns.column_widths* (widths non-negative, own size or hidden, hidden columns form a prefix, focus column kept when it fits, never exceeds maxcol with dividers, fills it exactly when a weighted column is shown, every weighted column >= min_width, local proportionality; sorted() model, suffix-sum and cascade lemmas).",
+    "Assumes: pyvc's encoding of the Python subset; float rounding idioms as exact rationals for operands < 2^26; integer weights; the widget protocol for children. Global proportionality 'to within one column' is NOT proved and fails (known findings C19-KF1/KF2: rounding cascade); GridFlow layout: bounded only." + TIERNOTE,
+    "§6 C19, §9",
+    TECH + "; bounded stand-in",
+)
+CLAIMS["C12"] = (
+    "proof",
+    CLAIMS["C12"][1] + " _update: a resize anywhere in a batch forgets the cached screen size and events are withheld from process_input only when there is nothing to route; draw_screen asks the screen for its size when forgotten, renders the topmost widget in focus at that size and paints that canvas.",
+    CLAIMS["C12"][2],
+    "§6 C12, §9",
+    CLAIMS["C12"][4],
+)
+
 PENDING = "contracts for this property are not built yet in this commit (see DESIGN.md §6 for the plan); no check is claimed"
 
 
